@@ -74,6 +74,121 @@ def b2a : NBytes → NBytes
     (b2a_base64 appends a newline) -/
 def mkauth (u p : CText) : CText := [98, 97, 115, 105, 99, 32] ++ b2a (utf8enc (u ++ 58 :: p)) ++ [10]
 
+/-! ### `bytes.decode("utf8", "replace")`
+
+  CPython's UTF-8 decoder reports a malformed sequence as the maximal prefix of a well-formed sequence (1–3 bytes:
+  the lead byte alone when the second byte cannot follow it, lead + valid continuations when a later byte is wrong or
+  the input ends) and the "replace" handler emits ONE U+FFFD for that range, then decoding resumes right after it.
+  (Same byte classes as the surrogateescape decoder transcribed in C35_Str — `isCont`, `ok3`, `ok4` — but the range, not
+  each byte, is replaced.) -/
+
+def isCont (n : Nat) : Bool := 0x80 ≤ n && n ≤ 0xBF
+/-- second byte of a 3-byte sequence: no overlong forms (E0 80–9F), no encoded surrogates (ED A0–BF) -/
+def ok3 (n0 n1 : Nat) : Bool := isCont n1 && (n0 != 0xE0 || 0xA0 ≤ n1) && (n0 != 0xED || n1 ≤ 0x9F)
+/-- second byte of a 4-byte sequence: no overlong forms (F0 80–8F), nothing above U+10FFFF (F4 90–BF) -/
+def ok4 (n0 n1 : Nat) : Bool := isCont n1 && (n0 != 0xF0 || 0x90 ≤ n1) && (n0 != 0xF4 || n1 ≤ 0x8F)
+
+/-- one decoding step: (code point produced, bytes consumed) -/
+def decStepR : NBytes → Nat × Nat
+  | [] => (0, 0)
+  | n0 :: t =>
+    if n0 < 0x80 then (n0, 1)
+    else if 0xC2 ≤ n0 ∧ n0 ≤ 0xDF then
+      match t with
+      | n1 :: _ => if isCont n1 then ((n0 - 0xC0) * 64 + (n1 - 0x80), 2) else (0xFFFD, 1)
+      | [] => (0xFFFD, 1)
+    else if 0xE0 ≤ n0 ∧ n0 ≤ 0xEF then
+      match t with
+      | n1 :: t2 =>
+        if !ok3 n0 n1 then (0xFFFD, 1)
+        else match t2 with
+          | n2 :: _ => if isCont n2 then ((n0 - 0xE0) * 4096 + (n1 - 0x80) * 64 + (n2 - 0x80), 3) else (0xFFFD, 2)
+          | [] => (0xFFFD, 2)
+      | [] => (0xFFFD, 1)
+    else if 0xF0 ≤ n0 ∧ n0 ≤ 0xF4 then
+      match t with
+      | n1 :: t2 =>
+        if !ok4 n0 n1 then (0xFFFD, 1)
+        else match t2 with
+          | n2 :: t3 =>
+            if !isCont n2 then (0xFFFD, 2)
+            else match t3 with
+              | n3 :: _ =>
+                if isCont n3 then
+                  ((n0 - 0xF0) * 262144 + (n1 - 0x80) * 4096 + (n2 - 0x80) * 64 + (n3 - 0x80), 4)
+                else (0xFFFD, 3)
+              | [] => (0xFFFD, 3)
+          | [] => (0xFFFD, 2)
+      | [] => (0xFFFD, 1)
+    else (0xFFFD, 1)
+
+def decFR : Nat → NBytes → CText
+  | _, [] => []
+  | 0, _ :: _ => []
+  | f + 1, b :: t => let r := decStepR (b :: t); r.1 :: decFR f ((b :: t).drop r.2)
+
+/-- `bytes.decode("utf8", "replace")` -/
+def utf8decR (b : NBytes) : CText := decFR b.length b
+
+/-! ### `bytes.decode("utf-8", "backslashreplace")` (SOCKS5 user / password)
+
+  Same decoder, same malformed ranges; the handler writes `\xNN` (two lower-case hex digits) for every byte of the
+  range instead of one U+FFFD. -/
+
+/-- one decoding step that tells a malformed range (`none`) from a decoded code point; second component: bytes consumed -/
+def decStepE : NBytes → Option Nat × Nat
+  | [] => (none, 0)
+  | n0 :: t =>
+    if n0 < 0x80 then (some n0, 1)
+    else if 0xC2 ≤ n0 ∧ n0 ≤ 0xDF then
+      match t with
+      | n1 :: _ => if isCont n1 then (some ((n0 - 0xC0) * 64 + (n1 - 0x80)), 2) else (none, 1)
+      | [] => (none, 1)
+    else if 0xE0 ≤ n0 ∧ n0 ≤ 0xEF then
+      match t with
+      | n1 :: t2 =>
+        if !ok3 n0 n1 then (none, 1)
+        else match t2 with
+          | n2 :: _ => if isCont n2 then (some ((n0 - 0xE0) * 4096 + (n1 - 0x80) * 64 + (n2 - 0x80)), 3) else (none, 2)
+          | [] => (none, 2)
+      | [] => (none, 1)
+    else if 0xF0 ≤ n0 ∧ n0 ≤ 0xF4 then
+      match t with
+      | n1 :: t2 =>
+        if !ok4 n0 n1 then (none, 1)
+        else match t2 with
+          | n2 :: t3 =>
+            if !isCont n2 then (none, 2)
+            else match t3 with
+              | n3 :: _ =>
+                if isCont n3 then
+                  (some ((n0 - 0xF0) * 262144 + (n1 - 0x80) * 4096 + (n2 - 0x80) * 64 + (n3 - 0x80)), 4)
+                else (none, 3)
+              | [] => (none, 3)
+          | [] => (none, 2)
+      | [] => (none, 1)
+    else (none, 1)
+
+def hexDigitN (n : Nat) : Nat := if n < 10 then 48 + n else 87 + n
+/-- `\xNN` -/
+def bsEscape (b : Nat) : CText := [92, 120, hexDigitN (b / 16), hexDigitN (b % 16)]
+
+def decFB : Nat → NBytes → CText
+  | _, [] => []
+  | 0, _ :: _ => []
+  | f + 1, b :: t =>
+    let r := decStepE (b :: t)
+    (match r.1 with
+      | some c => [c]
+      | none => ((b :: t).take r.2).flatMap bsEscape) ++ decFB f ((b :: t).drop r.2)
+
+/-- `bytes.decode("utf-8", "backslashreplace")` -/
+def utf8decBS (b : NBytes) : CText := decFB b.length b
+
+/-- the library part of `parse_http_basic_auth`, fully transcribed:
+    `binascii.a2b_base64(tok.encode()).decode("utf8", "replace")` -/
+def decodeCredStd (tok : CText) : Option CText := (a2b (utf8enc tok)).map utf8decR
+
 /-- the library part of `parse_http_basic_auth` with the UTF-8 "replace" decoder as the only parameter -/
 def decodeCredWith (utf8dec : NBytes → CText) (tok : CText) : Option CText :=
   (a2b (utf8enc tok)).map utf8dec
